@@ -53,6 +53,10 @@ def worker(unit, emit):
         for f in (str.lower, str.upper, str.swapcase):
             for kw in opts:
                 rec(f(base), f.__name__, kw)
+        # zeros in front (also behind a blank) and stretched spellings: what a clean-up pipeline in the wrong order leaves behind
+        for y, how in (('0' + base, 'zero prefixed'), (' 0' + base, 'blank and zero prefixed'), ('00' + base + ' ', 'two zeros prefixed'),
+                       (' '.join(base), 'stretched'), (base + ' ' * 80, 'padded right 80')):
+            rec(y, how, {})
         for script in scripts1:
             for s, d in inputs.concretise(base, script, rnd, k=p['k']):
                 rec(s, d, {})
